@@ -230,3 +230,62 @@ def verbose_rule(ctx, rule, funcs, why):
                                                                         'writes object state' if writes else 'leaves the function or loop') +
                       f': {why}', ast.unparse(g)[:200].replace('\n', ' | '))
     return n
+
+
+# for-each loops with an effect on every item that may legitimately stop early (confirmed by reading)
+FOREACH_EXITS = {
+    ('gnpy.core.elements.Roadm.get_impairment', 'impairment_per_band'): 'search: the bands are disjoint, the first band holding the frequency is the only one',
+    ('gnpy.topology.request.requests_aggregation', None): 'one request is merged into at most one other; the scan restarts for the next request',
+}
+
+
+def foreach_effect(repo, f, lp):
+    """what the loop does to each item: an attribute / item store on the loop variable, or a call that (by its effect summary)
+    writes the object it is given; None if the loop has no per-item effect"""
+    from ..effects import all_effects
+    eff = all_effects(repo)
+    lv = {x.id for x in ast.walk(lp.target) if isinstance(x, ast.Name)}
+    for n in ast.walk(lp):
+        if isinstance(n, (ast.Attribute, ast.Subscript)) and isinstance(n.ctx, ast.Store):
+            r = n
+            while isinstance(r, (ast.Attribute, ast.Subscript)):
+                r = r.value
+            if isinstance(r, ast.Name) and r.id in lv:
+                return f'stores {ast.unparse(n)[:40]}'
+        if isinstance(n, ast.Call):
+            callee = repo.resolve_call(f, n)
+            if isinstance(callee, Func) and callee.qual in eff:
+                off = 1 if (callee.cls is not None and isinstance(n.func, ast.Attribute) and callee.kind == 'method') else 0
+                for i, a in enumerate(n.args):
+                    if isinstance(a, ast.Name) and a.id in lv and eff[callee.qual].param_writes.get(i + off):
+                        return f'{callee.name}({a.id}) writes the item'
+    return None
+
+
+def foreach_rule(ctx, rule, funcs, why):
+    """a loop that does something to EVERY item of a collection (stores on the item, or calls a function that writes it) is not
+    left early: a break / return inside it skips the remaining items"""
+    repo = ctx.repo
+    n = 0
+    for f in funcs:
+        for lp in [x for x in walk_no_nested(f.node) if isinstance(x, ast.For)]:
+            what = foreach_effect(repo, f, lp)
+            if not what:
+                continue
+            n += 1
+            exits = []
+            for x in walk_no_nested(lp):
+                if isinstance(x, ast.Return):
+                    exits.append(x)
+                elif isinstance(x, ast.Break):
+                    p = x._parent
+                    while not isinstance(p, (ast.For, ast.While)):
+                        p = p._parent
+                    if p is lp:
+                        exits.append(x)
+            allowed = any(q == f.qual and (nm is None or nm in ast.unparse(lp.iter)) for (q, nm) in FOREACH_EXITS)
+            ctx.check(rule, f'{site(f, lp)} for {ast.unparse(lp.target)[:20]} in {ast.unparse(lp.iter)[:30]}', not exits or allowed,
+                      f'{f.qual}|foreach|{ast.unparse(lp.iter)[:40]}',
+                      f'the loop {what} for each item but can be left early ({", ".join(type(x).__name__.lower() + " at line " + str(x.lineno) for x in exits)}): '
+                      f'the remaining items are skipped: {why}')
+    return n
